@@ -11,6 +11,17 @@ CLAIMS = {
             'HIR unsafe scan + path-sensitive panic-freedom proof over MIR (linear arithmetic, Fourier-Motzkin)', '§4 C20'),
 }
 
+CLAIMS.update({
+    'C07': ('proof',
+            'Every premise of the reduction in DESIGN.md §4/C07 is decided on each run over all MIR paths of the counting io::Write adapter and all call sites of the library: byte counter and rolling checksum advance by exactly the bytes the inner writer accepted, short write() occurs nowhere else, every other emission is write_all, the raw sink is reachable only through the adapter/its getters/the trailing checksum write, bytes_written() returns that counter, and counter and checksum start at zero on the writer the builder keeps. Together with std\'s write_all contract this implies the claim for every sink behaviour.',
+            'Trusts the io::Write::write_all contract (all bytes or Err; Interrupted retried; Ok(0) => WriteZero) and that the sink\'s write() reports a correct count. The conclusion "same bytes" is a deduction from the decided premises, not an observation.',
+            'path-sensitive MIR dataflow on the io::Write adapter + who-may-call / who-may-touch rules over resolved call sites', '§4 C07'),
+    'C11': ('proof',
+            'Every Result<_, io::Error>/crate Result produced in code generic over the sink is followed (def-use over MIR) to `?`, the return place or an error-preserving combinator; none is dropped, swallowed, matched into success or unwrapped. Every success path of the finishing routine passes the pending-node compilation, both footer writes, the checksum write and a final propagated flush on the raw sink. Emission is write_all only, and io::Error converts to Error::Io.',
+            'Trusts the `?` desugaring and the write_all contract. Scope is the code generic over W: io::Write; the Vec<u8>-only conveniences unwrap on an infallible sink and are excluded by construction (they are not generic).',
+            'def-use error-flow analysis over MIR + must-pass-through on enumerated paths', '§4 C11'),
+})
+
 NOT_APPLICABLE = {
     'C17': 'Acceptance is a property of a DFA constructed at run time from the query; no clause has a structural counterpart that a sound static rule within reach could decide (DESIGN.md §6).',
 }
